@@ -2,7 +2,7 @@
 
 For every class of the library that defines its own `dump`, the body is read from the source AST as a script over
 
-    validate | openW | getParser | serialize | buildFile | unknown
+    validate | openW | getParser | serialize | buildFile | newBuf | buildMem | writeBuf | unknown
 
 in statement order (the statements inside `with open_file_obj(f, "w") as f:` follow the `openW`).  Only the exact
 idiom of the library is recognised:
@@ -11,7 +11,10 @@ idiom of the library is recognised:
     parser = self._get_parser()                       -> getParser
     self.serialize(parser[, name=name ...])           -> serialize
     with [productmd.common.]open_file_obj(f, "w") ..: -> openW, then the block
-    self.build_file(parser, f)                        -> buildFile
+    self.build_file(parser, f)                        -> buildFile   (f = the opened destination)
+    content = [six.|io.]StringIO()                    -> newBuf
+    self.build_file(parser, content)                  -> buildMem    (the memory buffer)
+    f.write(content.getvalue())                       -> writeBuf    (inside the with block)
 
 Anything else is `unknown` (treated as fallible by the model); an unrecognised statement that contains a call of
 something named `open*` is `openW, unknown` (it may truncate AND may fail afterwards).  The translation can therefore
@@ -76,6 +79,20 @@ def tr_block(stmts, inside, out, state):
         if isinstance(st, ast.Expr) and is_self_call(st.value, "build_file") and len(st.value.args) == 2 and not st.value.keywords \
                 and simple_names(st.value.args) and st.value.args[0].id == state.get("parser") and st.value.args[1].id == state.get("file"):
             out.append(dict(eff="buildFile", inside_with=inside, src=src)); continue
+        if isinstance(st, ast.Assign) and len(st.targets) == 1 and isinstance(st.targets[0], ast.Name) and isinstance(st.value, ast.Call) \
+                and not st.value.args and not st.value.keywords and ast.unparse(st.value.func) in ("six.StringIO", "io.StringIO", "StringIO") \
+                and st.targets[0].id not in (state.get("parser"), state.get("file")):
+            state["buf"] = st.targets[0].id
+            out.append(dict(eff="newBuf", inside_with=inside, src=src)); continue
+        if isinstance(st, ast.Expr) and is_self_call(st.value, "build_file") and len(st.value.args) == 2 and not st.value.keywords \
+                and simple_names(st.value.args) and st.value.args[0].id == state.get("parser") and state.get("buf") \
+                and st.value.args[1].id == state.get("buf") and st.value.args[1].id != state.get("file"):
+            out.append(dict(eff="buildMem", inside_with=inside, src=src)); continue
+        if inside and isinstance(st, ast.Expr) and isinstance(st.value, ast.Call) and isinstance(st.value.func, ast.Attribute) \
+                and st.value.func.attr == "write" and isinstance(st.value.func.value, ast.Name) and st.value.func.value.id == state.get("file") \
+                and len(st.value.args) == 1 and not st.value.keywords and state.get("buf") \
+                and ast.unparse(st.value.args[0]) == "%s.getvalue()" % state["buf"]:
+            out.append(dict(eff="writeBuf", inside_with=inside, src=src)); continue
         if isinstance(st, ast.With) and len(st.items) == 1 and is_open_file_obj_w(st.items[0].context_expr) \
                 and isinstance(st.items[0].optional_vars, ast.Name) and not inside:
             state["file"] = st.items[0].optional_vars.id
@@ -89,7 +106,7 @@ def tr_block(stmts, inside, out, state):
 
 
 def script_of(fn):
-    out, state = [], {"parser": None, "file": None}
+    out, state = [], {"parser": None, "file": None, "buf": None}
     tr_block(fn.body, False, out, state)
     return out
 
